@@ -142,6 +142,26 @@ def r18_2(ctx):
     conn, key = dc.positional_params()[:2]
     ctx.ob('R18.2', 'deliver_challenge:takes-connection-and-key-only', len(dc.params) == 2, dc, None,
            'no parameter can carry a precomputed challenge: %s' % dc.params)
+    # the handshake keeps nothing between calls: a digest helper that remembers a keyed object (or anything else) in
+    # module globals lets one key's state answer for another key when two threads authenticate at once
+    seen, todo = {}, [(dc, 0), (m.func('connection:answer_challenge'), 0)]
+    while todo:
+        f, d = todo.pop()
+        if f.qual in seen or d > 3:
+            continue
+        seen[f.qual] = f
+        for c_ in [x for x in walk_own(f.node) if isinstance(x, ast.Call)]:
+            cal = f.callee(c_)
+            g_ = m.resolve_func(cal, f.module) if cal and '.' not in cal else None
+            if g_ is not None and g_.module is f.module:
+                todo.append((g_, d + 1))
+    stateful = [(f, n) for f in seen.values() for n in walk_own(f.node) if isinstance(n, (ast.Global, ast.Nonlocal))]
+    ctx.ob('R18.2', 'handshake:keeps-no-state-between-calls', not stateful, stateful[0][0] if stateful else dc,
+           stateful[0][1] if stateful else None,
+           'no function of the handshake (%d looked at) writes a module global' % len(seen) if not stateful else
+           '%s keeps state in module globals (%s): with two keys in use at once one key\'s remembered object can be '
+           'published under the other key, and from then on that key authenticates the wrong peers'
+           % (stateful[0][0].qual, ', '.join(stateful[0][1].names)))
     macs = _mac_sites(m, dc)
     q.need(macs, 'deliver_challenge computes no keyed digest (hmac.new / keyed hash, directly or through a helper)')
     M1 = macs[0]
